@@ -169,23 +169,27 @@ Qed.
 (** ** k = 4 is split by the first point (Proofs/SimplexLattice4*.v) *)
 Definition slice4 (ok : list (V3 Q) -> bool) (p0 : V3 Q) : bool :=
   forallb (fun p1 => forallb (fun p2 => forallb (fun p3 => ok [p0; p1; p2; p3]) lattice_pts) lattice_pts) lattice_pts.
-Definition pts_a : list (V3 Q) := firstn 9 lattice_pts.
-Definition pts_b : list (V3 Q) := firstn 9 (skipn 9 lattice_pts).
-Definition pts_c : list (V3 Q) := skipn 18 lattice_pts.
-Lemma lattice_pts_split : lattice_pts = pts_a ++ pts_b ++ pts_c.
+(** the 27 first points in 9 groups of 3 (one file of Proofs/SimplexLat4*.v per group/solver) *)
+Definition pts_group (i : nat) : list (V3 Q) := firstn 3 (skipn (3 * i) lattice_pts).
+Lemma lattice_pts_split :
+  lattice_pts = pts_group 0 ++ pts_group 1 ++ pts_group 2 ++ pts_group 3 ++ pts_group 4 ++
+                pts_group 5 ++ pts_group 6 ++ pts_group 7 ++ pts_group 8.
 Proof. reflexivity. Qed.
 
 Lemma slice4_all ok :
-  forallb (slice4 ok) pts_a = true -> forallb (slice4 ok) pts_b = true -> forallb (slice4 ok) pts_c = true ->
+  (forall i, (i < 9)%nat -> forallb (slice4 ok) (pts_group i) = true) ->
   forall Y, In Y (configs 4) -> ok Y = true.
 Proof.
-  intros Ha Hb Hc Y HY. apply configs_spec in HY. destruct HY as [Hl HF].
+  intros Hg Y HY. apply configs_spec in HY. destruct HY as [Hl HF].
   destruct Y as [|p0 [|p1 [|p2 [|p3 [|? ?]]]]]; try discriminate.
   inversion HF as [|? ? H0 HF1]; subst. inversion HF1 as [|? ? H1 HF2]; subst.
   inversion HF2 as [|? ? H2 HF3]; subst. inversion HF3 as [|? ? H3 _]; subst.
   assert (Hs : slice4 ok p0 = true).
-  { rewrite lattice_pts_split, !in_app_iff in H0. rewrite forallb_forall in Ha, Hb, Hc.
-    destruct H0 as [H0|[H0|H0]]; auto. }
+  { rewrite lattice_pts_split, !in_app_iff in H0.
+    assert (Hi : forall i, (i < 9)%nat -> In p0 (pts_group i) -> slice4 ok p0 = true).
+    { intros i Hi Hin. specialize (Hg i Hi). rewrite forallb_forall in Hg. auto. }
+    repeat (destruct H0 as [H0|H0]; [eapply Hi; [|exact H0]; lia|]).
+    eapply Hi; [|exact H0]; lia. }
   unfold slice4 in Hs. rewrite forallb_forall in Hs. specialize (Hs p1 H1).
   rewrite forallb_forall in Hs. specialize (Hs p2 H2).
   rewrite forallb_forall in Hs. exact (Hs p3 H3).
@@ -194,4 +198,14 @@ Qed.
 (** non-vacuity: a genuinely degenerate configuration of the lattice *)
 Example lattice_nonvacuous :
   In [V (-1) 0 1; V 0 0 0; V 1 0 (-1)]%Q (configs 3) /\ In [V 1 1 1; V 1 1 1]%Q (configs 2).
-Proof. split; apply configs_spec; split; auto; repeat constructor; apply lattice_pts_spec; cbn; tauto. Qed.
+Proof.
+  assert (Hin : forall x y z : Q, In x lat1 -> In y lat1 -> In z lat1 -> In (V x y z) lattice_pts)
+    by (intros; apply lattice_pts_spec; auto).
+  assert (Hm : In (-1)%Q lat1) by (left; reflexivity).
+  assert (H0 : In 0%Q lat1) by (right; left; reflexivity).
+  assert (H1 : In 1%Q lat1) by (right; right; left; reflexivity).
+  split; apply configs_spec; (split; [reflexivity|]).
+  - constructor; [apply Hin; assumption|]. constructor; [apply Hin; assumption|].
+    constructor; [apply Hin; assumption|]. constructor.
+  - constructor; [apply Hin; assumption|]. constructor; [apply Hin; assumption|]. constructor.
+Qed.
